@@ -429,7 +429,7 @@ func runC19(seed int64, tier string, out string) {
 	workers := 16
 	nLoader := 2000
 	if tier == "thorough" {
-		nLoader = 60000
+		nLoader = 40000
 	}
 	var probes []*Probe
 	corpus := loadCorpus(root)
@@ -480,7 +480,7 @@ func runC19(seed int64, tier string, out string) {
 					Case: map[string]interface{}{"probe": p, "status": pr.Status, "timed_out": pr.R.TimedOut, "stderr": truncate(pr.R.Stderr, 600), "stdout": truncate(pr.R.Stdout, 300), "replay_shell": shellReplay(p)}})
 			}
 		}
-		if len(meta.Samples) < 6 && p.Group != "corpus" && (len(meta.Samples)%2 == 0) == (pr.Status == 0) {
+		if len(meta.Samples) < 6 && !strings.HasPrefix(p.Note, "corpus/") && (len(meta.Samples)%2 == 0) == (pr.Status == 0) {
 			meta.Samples = append(meta.Samples, map[string]interface{}{"group": p.Group, "hint": p.Hint, "args": truncateArgs(p.Args), "stdin": truncate(p.stdinBytes(), 80), "status": pr.Status, "stderr": truncate(pr.R.Stderr, 120)})
 		}
 	}
